@@ -20,6 +20,8 @@ pub struct TreeCfg {
 	pub multiline: bool,
 	pub param_src: bool,
 	pub root_doc: bool,
+	/// some comments are the empty string (a value of a mapping set that a .tinydiff cannot spell; C04 only)
+	pub empty_doc: bool,
 	/// namespaces (0-based, > 0) in which names may be missing; empty = all non-source
 	pub missing_in: Vec<usize>,
 }
@@ -27,7 +29,7 @@ pub struct TreeCfg {
 impl Default for TreeCfg {
 	fn default() -> Self {
 		TreeCfg { n: 2, classes: 6, fields: 3, methods: 3, params: 2, p_missing: 0.15, p_doc: 0.3, unicode: false, inner: true,
-			packages: true, multiline: true, param_src: false, root_doc: false, missing_in: vec![] }
+			packages: true, multiline: true, param_src: false, root_doc: false, empty_doc: false, missing_in: vec![] }
 	}
 }
 
@@ -72,6 +74,7 @@ fn names(r: &mut StdRng, cfg: &TreeCfg, src: &str, prefix: &str) -> Value {
 }
 
 fn doc(r: &mut StdRng, cfg: &TreeCfg) -> Value {
+	if cfg.empty_doc && r.gen_bool(0.1) { return json!([""]); }
 	if r.gen_bool(cfg.p_doc) {
 		let mut d = pick(r, DOCS).to_string();
 		if !cfg.multiline { d = d.replace('\n', " "); }
